@@ -12,7 +12,8 @@ A *unit template* (/verif/units/<name>.u.c) is C text with directives:
   //@ enforce FN / //@ replace FN    goto-instrument --enforce-contract / --replace-call-with-contract
   //@ entry FN                       harness entry point
   //@ note TEXT                      assumption recorded in the evidence
-  //@ table FILE NAME [as CNAME]     copy a static table / constant definition textually
+  //@ table FILE NAME [as CNAME] [asenum]   copy a static table / constant definition textually (asenum: scalar
+                                     constant emitted as `enum { NAME = value };` so that it can be an array bound in C)
   //@ struct FILE CLASS [opts]       generate `struct CLASS` from the real class declaration + static SELF
   //@ enum FILE ENUM PREFIX          generate enum constants from the real header
   /*@extract FILE QUALNAME           verbatim function body + spliced contract
@@ -627,10 +628,15 @@ def gen_struct(relfile, cls, opts, cnt):
     return '\n'.join(lines) + '\n', names
 
 
-def gen_table(relfile, name, cname, cnt, static=True):
+def gen_table(relfile, name, cname, cnt, static=True, asenum=False):
     src = read_src(relfile)
     # find `... name[...] = { ... };` or `... name = value;` (qualified names allowed)
-    m = re.search(r'(?:^|[;}\n])([^;{}#]*?\b(?:\w+::)*%s\s*((?:\[[^\]]*\])*)\s*=\s*)' % re.escape(name), src)
+    m = None
+    for mc in re.finditer(r'(?:^|[;}\n])([^;{}#]*?\b(?:\w+::)*%s\s*((?:\[[^\]]*\])*)\s*=\s*)' % re.escape(name), src):
+        # a definition has a type in front of the (possibly qualified) name; `name[i] = ...;` inside a function is an assignment
+        if re.sub(r'\b(?:\w+::)*%s\b.*' % re.escape(name), '', mc.group(1), flags=re.S).strip():
+            m = mc
+            break
     if not m:
         raise ExtractionError('table %s not found in %s' % (name, relfile))
     decl = m.group(1)
@@ -643,6 +649,12 @@ def gen_table(relfile, name, cname, cnt, static=True):
     else:
         e = src.index(';', k) - 1
         init = src[k:e + 1]
+    if asenum:
+        # scalar C++ `const T name = value;` used as an array bound: a C enum constant (value text still from /repo)
+        if init.lstrip().startswith('{'):
+            raise ExtractionError('table %s: asenum needs a scalar initialiser' % name)
+        cnt.hit('R12_table_asenum')
+        return '#line %d "%s"\nenum { %s = %s };\n' % (line_of(src, m.start(1)), relfile, cname, rw_quals(init, Counter()))
     decl = ' '.join(decl.split())
     decl = re.sub(r'(?:\w+::)+%s' % re.escape(name), name, decl)
     decl = decl.replace('XMLUTIL_EXPORT', '').replace('XMLPARSER_EXPORT', '')
@@ -820,6 +832,11 @@ def do_extract(spec, cnt, exc_types, info):
     out.append('#define VERIF_RET %s' % retexpr)
     for l in spec['pre']:
         out.append(l)
+    nat = native_wrapper(spec, cname, ret, cparams, sig) if spec['contract'] else None
+    if nat:
+        out.append('#ifdef VERIF_NATIVE')
+        out.append('#define %s %s__impl' % (cname, cname))
+        out.append('#endif')
     out.append(sig)
     if spec['contract']:
         out.append('#line 1 "contract:%s"' % cname)
@@ -827,6 +844,11 @@ def do_extract(spec, cnt, exc_types, info):
     out.append('#line %d "%s"' % (base_line, relfile))
     out.append(body)
     out.append('#line 1 "unit-after-%s"' % cname)
+    if nat:
+        out.append('#ifdef VERIF_NATIVE')
+        out.append('#undef %s' % cname)
+        out.append(nat)
+        out.append('#endif')
     for r in refs:
         out.append('#undef %s' % r)
     info.setdefault('_bodies', []).append(body)
@@ -836,6 +858,97 @@ def do_extract(spec, cnt, exc_types, info):
                               'contract_clauses': sum(1 for l in spec['contract'] if '__CPROVER_' in l)})
     return '\n'.join(out) + '\n'
 
+
+
+# ---------------------------------------------------------------------------------------------
+# native replay support: evaluate the ensures clauses of a contract around the real body (gcc build)
+# ---------------------------------------------------------------------------------------------
+def impl_to_c(e):
+    """cbmc's `A ==> B` (lowest precedence, right associative) -> (!(A) || (B)), recursively inside parentheses"""
+    # first recurse into parenthesised groups
+    out = []
+    i = 0
+    n = len(e)
+    while i < n:
+        if e[i] == '(':
+            j = match_close(e, i)
+            out.append('(' + impl_to_c(e[i + 1:j]) + ')')
+            i = j + 1
+        else:
+            out.append(e[i])
+            i += 1
+    e2 = ''.join(out)
+    # now split at top level
+    d = 0
+    for k in range(len(e2) - 2):
+        c = e2[k]
+        if c in '([':
+            d += 1
+        elif c in ')]':
+            d -= 1
+        elif d == 0 and e2.startswith('==>', k):
+            return '(!(' + e2[:k].strip() + ') || (' + impl_to_c(e2[k + 3:]).strip() + '))'
+    return e2
+
+
+def native_wrapper(spec, cname, ret, cparams, sig):
+    text = '\n'.join(spec['contract'])
+    text = strip_comments(text)
+    clauses = []
+    pos = 0
+    while True:
+        m = re.search(r'__CPROVER_ensures\s*\(', text[pos:])
+        if not m:
+            break
+        k = pos + m.end() - 1
+        pc = match_close(text, k)
+        clauses.append(' '.join(text[k + 1:pc].split()))
+        pos = pc + 1
+    if not clauses:
+        return None
+    names = []
+    if cparams.strip() != 'void':
+        for p_ in split_top(cparams):
+            mm = re.search(r'(\w+)\s*(\[\w*\])?\s*$', p_.strip())
+            names.append(mm.group(1))
+    olds = []
+    checks = []
+    skipped = 0
+    is_void = ret.strip() == 'void'
+    for ci, e in enumerate(clauses):
+        e = e.replace('__CPROVER_return_value', 'verif_r')
+        # olds
+        while True:
+            m = re.search(r'__CPROVER_old\s*\(', e)
+            if not m:
+                break
+            k = m.end() - 1
+            pc = match_close(e, k)
+            inner = e[k + 1:pc]
+            olds.append(inner)
+            e = e[:m.start()] + 'verif_old_%d' % (len(olds) - 1) + e[pc + 1:]
+        if '__CPROVER_' in e or (is_void and 'verif_r' in e):
+            skipped += 1
+            continue
+        checks.append((ci + 1, impl_to_c(e)))
+    if any('__CPROVER_' in o_ for o_ in olds):
+        return None
+    lines = ['/* native wrapper: re-evaluates %d of %d ensures clauses around the real body */' % (len(checks), len(clauses))]
+    lines.append(sig.replace('static ', ''))
+    lines.append('{')
+    for i, o_ in enumerate(olds):
+        lines.append('  __typeof__(%s) verif_old_%d = (%s);' % (o_, i, o_))
+    call = '%s__impl(%s)' % (cname, ', '.join(names))
+    if is_void:
+        lines.append('  %s;' % call)
+    else:
+        lines.append('  __typeof__(%s) verif_r = %s;' % (call, call))
+    for ci, c in checks:
+        lines.append('  if (!(%s)) verif_native_post_failed("%s", %d);' % (c, cname, ci))
+    if not is_void:
+        lines.append('  return verif_r;')
+    lines.append('}')
+    return '\n'.join(lines)
 
 # ---------------------------------------------------------------------------------------------
 # template processing
@@ -932,7 +1045,7 @@ def process(template_path):
                 cname = args[1]
                 if len(args) >= 4 and args[2] == 'as':
                     cname = args[3]
-                out.append(gen_table(args[0], args[1], cname, cnt, static='nonstatic' not in args))
+                out.append(gen_table(args[0], args[1], cname, cnt, static='nonstatic' not in args, asenum='asenum' in args))
                 out.append('#line 1 "unit-after-table-%s"' % cname)
             elif key == 'struct':
                 kv = parse_kv(args[2:])
